@@ -1,10 +1,10 @@
 CONSTANTS
   NameSeq <- N3
   Cidrs <- Fam5
-  BlockSpots <- Spots2
+  BlockSpots <- Spots1
   CidrOverlap <- TabOverlap
   CidrCovers <- TabCovers
-  Ties = TRUE
+  Ties = FALSE
 INIT Init
 NEXT INext
 INVARIANTS TypeOK RefinesP Idempotent TrueNeverOverlaps
